@@ -1,4 +1,5 @@
 import I18n.Model.Charset
+import I18n.Generated.IconvDl
 import I18n.Model.CharsetCns
 import I18n.Spec.CharsetIconv
 import I18n.Driver.Util
@@ -13,6 +14,8 @@ byte strings as plain hex (`-` = empty), "no value" as `~`.
 * `cmdecode <file> <bytes>` / `cmencode <file> <text>` → `ok … | err <start> <end>`
 * `decloop <bytes> <fuel> <script>` / `encloop <nchars> <fuel> <script>` → `<outcome> trace=<alloc>:<told>,…`;
   `<script>` = `;`-separated `<told>=<reset|~>/<rc>:<consumed>:<written>/<rc>:<consumed>:<written>`, rc ∈ ok,e2big,eilseq,einval,<errno>
+* `gdecloop <bytes> <fuel> <script>` / `gencloop <text> <fuel> <script>`: the same through `decode` / `encode` as REGENERATED from the
+  current lib/iconv.py (`Generated.IconvDl`; proved equal to the model in `Props/C20Tie.lean`)
 * `chars <strict 0|1> <value>` → tokens joined by `,`
 * `unrep <joined outcome> <per-character outcomes> <characters joined by ,>` → `ok <characters> | crash`; outcome letters `o e i c`
 * `check <name> <is_template> <dec> <codec | ~> <characters | ~ (no language) | ^ (no list)> <oracle>` →
@@ -136,6 +139,20 @@ def handle (op : String) (args : List String) : String :=
   | "encloop", [n, fuel, script] =>
     let (o, tr) := encodeDl (stepOf script) n.toNat! fuel.toNat!
     s!"{showOutcome showBytes o} {showTrace tr}"
+  -- `gdecloop` / `gencloop`: the same over `decode` / `encode` REGENERATED from lib/iconv.py (Generated.IconvDl, tools/translate/iconv2lean.py);
+  -- `gencloop` takes the text itself
+  | "gdecloop", [b, fuel, script] =>
+    let (o, tr) := Py.observe (I18n.Generated.IconvDl.decode ⟨fun _ _ => none, fun _ _ => stepOf script, none⟩ (bytesOf b)
+      (Py.lit "X-SCRIPTED") (Py.lit "strict") fuel.toNat! Py.World.init)
+    match Py.toOutcome o with
+    | some o => s!"{showOutcome showName o} {showTrace tr}"
+    | none => s!"other {showTrace tr}"
+  | "gencloop", [t, fuel, script] =>
+    let (o, tr) := Py.observe (I18n.Generated.IconvDl.encode ⟨fun _ _ => none, fun _ _ => stepOf script, none⟩ (nameOf t)
+      (Py.lit "X-SCRIPTED") (Py.lit "strict") fuel.toNat! Py.World.init)
+    match Py.toOutcome o with
+    | some o => s!"{showOutcome showBytes o} {showTrace tr}"
+    | none => s!"other {showTrace tr}"
   | "chars", [strict, v] => showChars (getCharacters (strict == "1") (nameOf v))
   | "unrep", [j, per, cs] =>
     let characters := charsOf cs
